@@ -111,6 +111,10 @@ type btrack struct {
 	incarnAcc  int
 	reinjected int
 	absentEpoch int
+	subSeq      int // order of injection
+	reports     map[string]int
+	reportedDeleted bool
+	assignedID  string // ID the node filed a locally submitted bundle under (from the store or the wire)
 	overlapRMW  bool         // two read-modify-write sequences on this bundle's routing state overlapped
 	noSpread    map[int]bool // peers that came up while the destination was connected (direct delivery had precedence)
 }
@@ -318,6 +322,9 @@ type nodeSim struct {
 	serialNo   int
 
 	retryEvery time.Duration
+	trackSeq   int
+	reportsJudged map[string]bool
+	allAgents  []*simAgent
 	lastReleased string
 	aborted    bool
 }
@@ -366,6 +373,7 @@ func (n *nodeSim) startCore() error {
 	n.recv = &simRecv{ch: make(chan cla.ConvergenceStatus), eid: bpv7.MustNewEndpointID(simNodeEID)}
 	n.inject("reg-recv", func() { c.RegisterConvergable(n.recv) })
 	n.appAgent = newSimAgent("app", simNodeEID+"app", simNodeEID+"app2")
+	n.allAgents = append(n.allAgents, n.appAgent)
 	n.inject("reg-agent", func() { c.RegisterApplicationAgent(n.appAgent) })
 	return nil
 }
@@ -856,7 +864,7 @@ func (n *nodeSim) track(i int, sp *BSpec, b bpv7.Bundle, via string, from int) *
 		own = b
 	}
 	tr = &btrack{idx: i, spec: sp, bundle: own, wire: wire, id: b.ID(), injected: true, via: via, fromPeer: from,
-		tAccept: time.Now(), epochAcc: n.epoch + 1, incarnAcc: n.incarn}
+		tAccept: time.Now(), epochAcc: n.epoch + 1, incarnAcc: n.incarn, reports: map[string]int{}}
 	tr.life = time.Duration(sp.LifeMs) * time.Millisecond
 	if b.PrimaryBlock.CreationTimestamp.IsZeroTime() {
 		age := time.Duration(0)
@@ -874,6 +882,8 @@ func (n *nodeSim) track(i int, sp *BSpec, b bpv7.Bundle, via string, from int) *
 			tr.dupOf = j + 1
 		}
 	}
+	n.trackSeq++
+	tr.subSeq = n.trackSeq
 	n.tracks[i] = tr
 	n.byTag[sp.Tag] = tr
 	return tr
@@ -913,15 +923,20 @@ func (n *nodeSim) opDeliver(op simk.Op) {
 	if sp == nil || n.core == nil {
 		return
 	}
-	b, err := n.buildBundle(sp)
-	if err != nil {
-		n.lg.Add("build failed: %v", err)
-		return
-	}
-	wire, err := encodeBundle(&b)
-	if err != nil {
-		n.lg.Add("encode failed: %v", err)
-		return
+	var wire []byte
+	if old := n.tracks[op.B]; old != nil {
+		// a duplicate: the very same bytes arrive again (possibly from another peer)
+		wire = old.wire
+	} else {
+		b, err := n.buildBundle(sp)
+		if err != nil {
+			n.lg.Add("build failed: %v", err)
+			return
+		}
+		if wire, err = encodeBundle(&b); err != nil {
+			n.lg.Add("encode failed: %v", err)
+			return
+		}
 	}
 	// what the node receives is exactly what a convergence layer parses off the wire
 	pb, err := bpv7.ParseBundle(bytes.NewReader(wire))
